@@ -1,7 +1,7 @@
 --------------------------- MODULE DaskFlowTrace ---------------------------
 (* Trace validation of real scatter ... gather pipelines on an in-process dask cluster against DaskFlow.  *)
-(* ScatterDone and HandOver are silent.  A loss of order is reported per occurrence (known finding F18 for producers   *)
-(* that do not await their emits) instead of stopping the run.                                           *)
+(* ScatterDone, HandOver and PassTurn are silent.  A loss of emission order is reported per occurrence instead of      *)
+(* stopping the run (the engine demands it of producers that await their emits).                        *)
 EXTENDS DaskFlow, Json, IOUtils, TLCExt
 Traces == JsonDeserialize(IOEnv.TRACE_FILE)
 VARIABLES tid, l
@@ -26,8 +26,8 @@ TraceNext ==
     \/ /\ l <= Len(T) /\ Event(T[l])
        /\ l' = l + 1 /\ TLCSet(tid, Max(TLCGet(tid), l + 1)) /\ UNCHANGED tid
        /\ ((SameOrder /\ ~SameOrder') => PrintT(<<"UNSAFE", Traces[tid].id, l>>))
-    \/ /\ l <= Len(T) /\ (\E e \in Elems : ScatterDone(e) \/ HandOver(e)) /\ UNCHANGED <<tid, l>>
+    \/ /\ l <= Len(T) /\ (\E e \in Elems : ScatterDone(e) \/ HandOver(e) \/ PassTurn(e)) /\ UNCHANGED <<tid, l>>
 TraceSpec == TraceInit /\ [][TraceNext]_tvars
-TraceInv == ExactlyOnce /\ Lossless /\ CbSafe /\ RcBalance
+TraceInv == ExactlyOnce /\ Lossless /\ CallOrder /\ CbSafe /\ RcBalance
 Report == \A i \in 1 .. Len(Traces) : PrintT(<<"REACHED", Traces[i].id, TLCGet(i), Len(Traces[i].ev) + 1>>)
 =============================================================================
